@@ -245,7 +245,7 @@ func TestCheck(t *testing.T) {
 		"start_sizes":                   starts,
 		"exhaustive":                    true,
 		"samples":                       st.Samples,
-		"rule":                          "every rollback-journal pager program of the enumerated shape space (modified-page set x new size x spill points x sync mode x finalisation x outcome) from every starting size, plus all chains of two over the core shapes; transitions = individual file operations issued through the FUSE handlers",
+		"rule":                          "every rollback-journal pager program of the enumerated shape space (modified-page set x new size x spill points x sync mode x finalisation x outcome; plus transactions whose size peaks above the final size) from every starting size, plus all chains of two over the core shapes; transitions = individual file operations issued through the FUSE handlers",
 	}
 	if st.Classes.N() < 3 && run.NViolations() == 0 {
 		run.HarnessError("vacuous: %d outcome classes", st.Classes.N())
